@@ -152,14 +152,32 @@ impl Planner {
             _ => 0,
         };
         if interesting && !self.pre_pool.is_empty() && rng.chance(1, 5) {
-            // explicit call history: one or two earlier calls on other corpus
-            // symbols on the same run thread (thread-local or process-wide
-            // state left behind by a call must not change a later result)
-            let n = 1 + rng.below(2);
+            // explicit call history: earlier calls on other corpus symbols on
+            // the same run thread (thread-local or process-wide state left
+            // behind by a call must not change a later result). Three quarters
+            // have one or two earlier calls, one quarter three to eight; a
+            // sixth of the calls is a battery of other public functions, a
+            // third gets a renumbered symbol.
+            let n = if rng.chance(1, 4) { 3 + rng.below(6) } else { 1 + rng.below(2) };
             for _ in 0..n {
                 let base = self.pre_pool[rng.below(self.pre_pool.len())].clone();
-                let op = if self.prop == "C16" && rng.chance(1, 2) { Op::SimplifyPtc } else { Op::IsEuclidean };
-                spec.pre.push(PreOp { base, dual: rng.chance(1, 3), op });
+                let op = if rng.chance(1, 6) {
+                    Op::Battery
+                } else if self.prop == "C16" && rng.chance(1, 2) {
+                    Op::SimplifyPtc
+                } else {
+                    Op::IsEuclidean
+                };
+                let dual = rng.chance(1, 3);
+                let shuffle = if rng.chance(1, 3) { Some(rng.next_u64()) } else { None };
+                spec.pre.push(PreOp { base, dual, op, shuffle });
+            }
+            if rng.chance(1, 4) {
+                // ... and the last earlier call gets the run's own base symbol
+                // (a repeated call must not see what the first one left behind)
+                let op = if self.prop == "C16" && spec.op == Op::SimplifyPtc { Op::SimplifyPtc } else { Op::IsEuclidean };
+                let shuffle = if rng.chance(1, 2) { Some(rng.next_u64()) } else { None };
+                spec.pre.push(PreOp { base: spec.base.clone(), dual: rng.chance(1, 2), op, shuffle });
             }
         }
         if interesting && self.hooks && rng.chance(1, 16) {
@@ -410,12 +428,105 @@ impl Planner {
                     s.known_euclidean = true;
                     s.k0 = rng.next_u64();
                     s.k1 = rng.next_u64();
-                    s.pre.push(PreOp { base: a.0.clone(), dual: a.1, op: Op::IsEuclidean });
+                    s.pre.push(PreOp { base: a.0.clone(), dual: a.1, op: Op::IsEuclidean, shuffle: None });
                     specs.push(s);
                     n_pairs += 1;
                 }
             }
             let _ = n_pairs;
+        }
+        // B10: sessions - a seeded sequence of three to eight calls on ONE thread
+        // (literals, filter-passing and rejected generated symbols, finite-group
+        // symbols, the fallback-branch witnesses; duals and renumberings; repeated
+        // symbols; batteries of other public functions). Every position of the
+        // sequence is judged: position j is a run whose explicit call history is
+        // positions 0..j, compared within its symbol's group like any other run.
+        {
+            struct Item {
+                group: String,
+                text: String,
+                known: bool,
+                literal: bool,
+            }
+            let lit: Vec<Item> = corpus.k0.iter().map(|e| Item { group: e.id.clone(), text: e.text.clone(), known: true, literal: true }).collect();
+            let mut other: Vec<Item> = vec![];
+            for (gi, e) in corpus.g.iter().enumerate() {
+                let fallback_witness = e.id == "J0" || e.id == "J1";
+                if gi >= corpus.extra_from && !fallback_witness {
+                    continue;
+                }
+                if census_g[gi].interesting() || hmix(&[self.seed, 0x5E50, gi as u64]) % 64 == 0 {
+                    other.push(Item { group: e.id.clone(), text: e.text.clone(), known: kplus[gi], literal: false });
+                }
+            }
+            for e in corpus.finite.iter() {
+                other.push(Item { group: e.id.clone(), text: e.text.clone(), known: false, literal: false });
+            }
+            fn optable(text: &str) -> &str {
+                &text[..text.rfind(':').unwrap_or(text.len())]
+            }
+            let mut siblings: std::collections::BTreeMap<&str, Vec<(bool, usize)>> = std::collections::BTreeMap::new();
+            for (i, it) in lit.iter().enumerate() {
+                siblings.entry(optable(&it.text)).or_default().push((true, i));
+            }
+            for (i, it) in other.iter().enumerate() {
+                siblings.entry(optable(&it.text)).or_default().push((false, i));
+            }
+            let n_sessions = if thorough { 4000 } else { 250 };
+            for si in 0..n_sessions {
+                let mut r = SplitMix64::new(hmix(&[self.seed, 0x5E55, si as u64]));
+                let len = 3 + r.below(6);
+                // (in literals?, index, dual, shuffle, battery)
+                let mut elems: Vec<(bool, usize, bool, Option<u64>, bool)> = vec![];
+                for j in 0..len {
+                    let (in_lit, ix) = if j > 0 && r.chance(1, 4) {
+                        let e = elems[r.below(j)];
+                        (e.0, e.1)
+                    } else if j > 0 && r.chance(1, 3) {
+                        // a sibling of an earlier element: same D-set (op table),
+                        // other branching degrees - the natural collision partner
+                        // for any cache keyed on part of the input
+                        let e = elems[r.below(j)];
+                        let it = if e.0 { &lit[e.1] } else { &other[e.1] };
+                        match siblings.get(optable(&it.text)) {
+                            Some(list) if list.len() > 1 => list[r.below(list.len())],
+                            _ => (e.0, e.1),
+                        }
+                    } else if other.is_empty() || r.chance(1, 2) {
+                        (true, r.below(lit.len()))
+                    } else {
+                        (false, r.below(other.len()))
+                    };
+                    let dual = r.chance(1, 3);
+                    let shuffle = if r.chance(1, 2) { Some(r.next_u64()) } else { None };
+                    let battery = in_lit && j + 1 < len && r.chance(1, 6);
+                    elems.push((in_lit, ix, dual, shuffle, battery));
+                }
+                for j in 1..len {
+                    let (in_lit, ix, dual, shuffle, battery) = elems[j];
+                    if battery {
+                        continue;
+                    }
+                    let it = if in_lit { &lit[ix] } else { &other[ix] };
+                    let (group, text, known) = (it.group.clone(), it.text.clone(), it.known);
+                    let (mut s, mut rng) = self.base_spec(&group, &text, Op::IsEuclidean);
+                    if dual {
+                        s.xf.push(Xf::Dual);
+                    }
+                    if let Some(x) = shuffle {
+                        s.xf.push(Xf::Shuffle(x));
+                    }
+                    s.known_euclidean = known;
+                    s.repr = Self::c17_repr(&mut rng);
+                    s.k0 = rng.next_u64();
+                    s.k1 = rng.next_u64();
+                    for &(l2, i2, d2, sh2, b2) in &elems[..j] {
+                        let it2 = if l2 { &lit[i2] } else { &other[i2] };
+                        s.pre.push(PreOp { base: it2.text.clone(), dual: d2, op: if b2 { Op::Battery } else { Op::IsEuclidean }, shuffle: sh2 });
+                    }
+                    specs.push(s);
+                }
+            }
         }
         // B5: finite-group symbols (expected "no" by the invariant filter)
         for e in corpus.finite.iter() {
@@ -623,7 +734,7 @@ impl Planner {
                     s.known_euclidean = y.1;
                     s.k0 = rng.next_u64();
                     s.k1 = rng.next_u64();
-                    s.pre.push(PreOp { base: x.0.clone(), dual: false, op: Op::SimplifySelf });
+                    s.pre.push(PreOp { base: x.0.clone(), dual: false, op: Op::SimplifySelf, shuffle: None });
                     specs.push(s);
                 }
             }
@@ -639,7 +750,103 @@ impl Planner {
                         s.expect = Expect::SameAsInput;
                         s.k0 = rng.next_u64();
                         s.k1 = rng.next_u64();
-                        s.pre.push(PreOp { base: crate::gen::lens_space(p, q1).to_text(), dual: false, op: Op::SimplifySelf });
+                        s.pre.push(PreOp { base: crate::gen::lens_space(p, q1).to_text(), dual: false, op: Op::SimplifySelf, shuffle: None });
+                        specs.push(s);
+                    }
+                }
+            }
+            // B3f: sessions - three to eight simplify / is_euclidean / battery calls
+            // on ONE thread over pseudo-toroidal covers of the literals, the one-cube
+            // family and lens spaces; every position is judged with positions 0..j as
+            // its explicit call history.
+            {
+                #[derive(Clone)]
+                enum It {
+                    Ptc(usize, bool),
+                    Cube(usize),
+                    Lens(usize, usize),
+                }
+                let lens: Vec<(usize, usize)> = [5usize, 7, 8, 9, 11, 13].iter().flat_map(|&p| (1..=p / 2).filter(move |&q| gcd(p, q) == 1).map(move |q| (p, q))).collect();
+                let n_sessions = if thorough { 3000 } else { 200 };
+                for si in 0..n_sessions {
+                    let mut r = SplitMix64::new(hmix(&[self.seed, 0x5E56, si as u64]));
+                    let len = 3 + r.below(6);
+                    // (item, run as is_euclidean/battery instead of simplify: 0 = simplify, 1 = is_euclidean, 2 = battery)
+                    let mut elems: Vec<(It, u8)> = vec![];
+                    for j in 0..len {
+                        let it = if j > 0 && r.chance(1, 4) {
+                            elems[r.below(j)].0.clone()
+                        } else {
+                            match r.below(4) {
+                                0 | 1 => It::Ptc(r.below(corpus.k0.len()), r.chance(1, 3)),
+                                2 => It::Cube(r.below(family.len())),
+                                _ => {
+                                    let l = lens[r.below(lens.len())];
+                                    It::Lens(l.0, l.1)
+                                }
+                            }
+                        };
+                        let kind = match (&it, j + 1 < len) {
+                            (It::Ptc(..), true) => match r.below(6) {
+                                0 => 1,
+                                1 => 2,
+                                _ => 0,
+                            },
+                            _ => 0,
+                        };
+                        elems.push((it, kind));
+                    }
+                    let pre_of = |e: &(It, u8)| -> PreOp {
+                        match &e.0 {
+                            It::Ptc(i, d) => PreOp {
+                                base: corpus.k0[*i].text.clone(),
+                                dual: *d,
+                                op: match e.1 {
+                                    1 => Op::IsEuclidean,
+                                    2 => Op::Battery,
+                                    _ => Op::SimplifyPtc,
+                                },
+                                shuffle: None,
+                            },
+                            It::Cube(i) => PreOp { base: family[*i].0.clone(), dual: false, op: Op::SimplifySelf, shuffle: None },
+                            It::Lens(p, q) => PreOp { base: crate::gen::lens_space(*p, *q).to_text(), dual: false, op: Op::SimplifySelf, shuffle: None },
+                        }
+                    };
+                    for j in 1..len {
+                        if elems[j].1 != 0 {
+                            continue;
+                        }
+                        let (mut s, mut rng) = match &elems[j].0 {
+                            It::Ptc(i, d) => {
+                                let e = &corpus.k0[*i];
+                                let group = if *d { format!("{}d", e.id) } else { e.id.clone() };
+                                let (mut s, rng) = self.base_spec(&group, &e.text, Op::SimplifyPtc);
+                                if *d {
+                                    s.xf.push(Xf::Dual);
+                                }
+                                s.expect = Expect::Torus;
+                                s.known_euclidean = true;
+                                (s, rng)
+                            }
+                            It::Cube(i) => {
+                                let y = &family[*i];
+                                let (mut s, rng) = self.base_spec(&format!("Q{}/self", i), &y.0, Op::SimplifySelf);
+                                s.expect = if y.1 { Expect::Torus } else { Expect::Unknown };
+                                s.known_euclidean = y.1;
+                                (s, rng)
+                            }
+                            It::Lens(p, q) => {
+                                let (mut s, rng) = self.base_spec(&format!("L{}.{}/self", p, q), &crate::gen::lens_space(*p, *q).to_text(), Op::SimplifySelf);
+                                s.expect = Expect::SameAsInput;
+                                (s, rng)
+                            }
+                        };
+                        s.k0 = rng.next_u64();
+                        s.k1 = rng.next_u64();
+                        s.deep = j + 1 == len;
+                        for e in &elems[..j] {
+                            s.pre.push(pre_of(e));
+                        }
                         specs.push(s);
                     }
                 }
